@@ -84,6 +84,8 @@ class PrattParser(ABC, Generic[ExprT]):
 
             # Postfix operator
             if next_token.name in self.POSTFIX_OPS:
+                if self.POSTFIX_OPS[next_token.name] < min_prec:
+                    break
                 stream.next()
                 left = self.parse_postfix(left, next_token)
                 continue
